@@ -7,35 +7,36 @@
 From JV Require Import Lib.Base Model.C07Decl.
 
 (* ---- the signature rules ---- *)
-Lemma sig_norm_explicit f f' : In f' (sig_norm f) -> explicit_field f' = true.
+Lemma sig_norm_explicit f f' :
+  starts_underscore (f_name f) = false -> In f' (sig_norm f) -> explicit_field f' = true.
 Proof.
-  unfold sig_norm, explicit_field. destruct f as [n t d]; simpl.
+  unfold sig_norm, explicit_field. destruct f as [n t d]; simpl. intro Hu. rewrite Hu. simpl.
   destruct d as [|v]; simpl.
   - destruct (is_optional t) eqn:Eo; simpl.
-    + destruct (starts_underscore n) eqn:Eu; simpl; [tauto|].
-      intros [<-|[]]; simpl. rewrite Eu, Eo. reflexivity.
+    + intros [<-|[]]; simpl. rewrite Hu, Eo. reflexivity.
     + intros [<-|[]]; simpl. rewrite Eo. reflexivity.
-  - destruct (starts_underscore n) eqn:Eu; simpl; [tauto|].
-    destruct (is_none v) eqn:En; simpl.
-    + destruct (is_optional t) eqn:Eo; simpl; intros [<-|[]]; simpl; rewrite Eu, ?En, ?Eo; reflexivity.
-    + intros [<-|[]]; simpl. rewrite Eu, En. reflexivity.
+  - destruct (is_none v) eqn:En; simpl.
+    + destruct (is_optional t) eqn:Eo; simpl; intros [<-|[]]; simpl; rewrite Hu, ?En, ?Eo; reflexivity.
+    + intros [<-|[]]; simpl. rewrite Hu, En. reflexivity.
 Qed.
 
 Lemma sig_norm_id f : explicit_field f = true -> sig_norm f = [f].
 Proof.
   unfold sig_norm, explicit_field. destruct f as [n t d]; simpl.
   destruct d as [|v]; simpl.
-  - intro H. apply negb_true_iff in H. rewrite H. simpl. reflexivity.
+  - intro H. apply negb_true_iff in H. rewrite H. simpl. rewrite andb_false_r. reflexivity.
   - intro H. apply andb_true_iff in H. destruct H as [Hu Hv].
     apply negb_true_iff in Hu. rewrite Hu. simpl.
     destruct (is_none v) eqn:En; simpl in *; [|reflexivity].
     rewrite Hv. simpl. reflexivity.
 Qed.
 
-Lemma norm_explicit fs : explicit (norm fs) = true.
+Lemma norm_explicit fs : public fs = true -> explicit (norm fs) = true.
 Proof.
-  unfold explicit, norm. apply forallb_forall. intros f' Hin.
-  apply in_flat_map in Hin. destruct Hin as [f [_ Hf]]. eapply sig_norm_explicit; eauto.
+  unfold explicit, norm, public. intro Hp. apply forallb_forall. intros f' Hin.
+  apply in_flat_map in Hin. destruct Hin as [f [Hf Hf']].
+  eapply sig_norm_explicit; [|exact Hf'].
+  apply negb_true_iff. exact (proj1 (forallb_forall _ _) Hp f Hf).
 Qed.
 
 Lemma explicit_norm fs : explicit fs = true -> norm fs = fs.
@@ -45,8 +46,8 @@ Proof.
   rewrite (sig_norm_id f Hf), (IH Hfs). reflexivity.
 Qed.
 
-Lemma norm_idem fs : norm (norm fs) = norm fs.
-Proof. apply explicit_norm, norm_explicit. Qed.
+Lemma norm_idem fs : public fs = true -> norm (norm fs) = norm fs.
+Proof. intro H. apply explicit_norm, norm_explicit, H. Qed.
 
 (* ---- strings ---- *)
 Lemma replace_dash_app a b : replace_dash (a ++ b) = replace_dash a ++ replace_dash b.
